@@ -9,7 +9,7 @@ ROOT=$(cd "$SELF/.." && pwd)
 echo "# regression of kept changes against /repo $(git -C /repo rev-parse --short HEAD), checks at $(git -C $ROOT rev-parse --short HEAD), $(date -u +%FT%TZ)" > "$OUT"
 for d in "$ROOT"/seeded/*/ "$ROOT"/selfmut/*/; do
   name=$(basename "$d"); prop=$(cat "$d/prop" | head -1 | cut -d' ' -f1)
-  case "$name" in X*|ok-*) want=0;; S28-*|S33-*) want=0;; *) want=1;; esac
+  case "$name" in X*|ok-*) want=0;; S28-*) want=0;; *) want=1;; esac
   t0=$(date +%s)
   out=$(VERIF_MAX_VIOLATIONS=1 "$SELF/run_mutant.sh" "$d/patch.diff" "$prop" quick 2>&1)
   rc=$(echo "$out" | grep -o "exit=[0-9]*" | head -1 | cut -d= -f2)
